@@ -107,7 +107,7 @@ MSpec == MInit /\ [][MNext]_mvars
 C06Bad ==
   LET crash == CrashOK(disk, jr, FIds) IN
   {i \in 1..9 :
-     \/ i = 9 /\ curf # 99 /\ ~JournalNamesOK(jr, FIds, curf, bef)     \* JournalNamesPreAppendLength
+     \/ i = 9 /\ curf # 99 /\ ~sawFault /\ ~JournalNamesOK(jr, FIds, curf, bef)     \* JournalNamesPreAppendLength
      \/ i = 1 /\ ~sawFault /\ ~crash                                  \* CrashRecoverable (no I/O error involved)
      \/ i = 2 /\ sawFault /\ ~crash                                   \* CrashRecoverable during / after error handling
      \/ i = 3 /\ lastFault.cls = "journal" /\ ~FaultContentOK(lastFault.cls, lastFault.before, lastFault.after)
